@@ -135,6 +135,10 @@ func c16SockSession(args []string, _ []byte) string {
 func init() { workerHandlers["c16sock"] = c16SockSession }
 
 func c16SocketTimeout(rt *rapid.T) {
+	if !everyNth("c16SocketTimeout", 2, 15) {
+		return
+	}
+	defer noteFailure()
 	rec := stats.For("C16")
 	spec := c16SockSpec{Version: int(rapid.SampledFrom(allVersions).Draw(rt, "version"))}
 	if rapid.Bool().Draw(rt, "silent") {
